@@ -12,10 +12,14 @@ def jobs(tier):
     return [
         Job("p1-pos3-kw3", M, "h_bind", dict(C13_MAXP=1, C13_MAXPOS=3, C13_MAXKW=3), shards=23, timeout=t),
         Job("p2-noko-pos3-kw1", M, "h_bind", dict(C13_MAXP=2, C13_MAXKO=0, C13_MAXPOS=3, C13_MAXKW=1), shards=23, timeout=t),
+        Job("p1-star-call", M, "h_bind", dict(C13_MAXP=1, C13_MAXPOS=3, C13_MAXKW=2, C13_EX=1), shards=47, timeout=t,
+            note="f(*tuple, **dict) call form through Args.simplify"),
     ]
   return [
       Job("p1-pos3-kw3", M, "h_bind", dict(C13_MAXP=1, C13_MAXPOS=3, C13_MAXKW=3), shards=23, timeout=t),
       Job("p2-pos5-kw3", M, "h_bind", dict(C13_MAXP=2, C13_MAXPOS=5, C13_MAXKW=3), shards=383, timeout=t),
+      Job("p2-star-call", M, "h_bind", dict(C13_MAXP=2, C13_MAXPOS=3, C13_MAXKW=1, C13_EX=1), shards=251, timeout=t,
+          note="f(*tuple, **dict) call form through Args.simplify"),
   ]
 
 
@@ -34,15 +38,17 @@ def meta(tier):
           "against a real pytype Context created once at import. Oracle: CPython itself - a function with "
           "that signature is defined and called; TypeError <=> FailedFunctionCall, and on success every "
           "formal parameter (incl. the *args tuple and the **kwargs dict for interpreter functions) holds "
-          "the argument CPython binds. Structural inputs only: the solver's role is the certified "
+          "the argument CPython binds. *-star-call jobs: the same call shapes passed the way the compiler passes "
+          "calls with star-arguments -- all positionals in one concrete tuple (*args), all keywords in one concrete "
+          "dict (**kwargs) -- and flattened by the real Args.simplify (traced) before binding. Structural inputs only: the solver's role is the certified "
           "exhaustive walk of the bounded space."),
       "functions_encoded": [
           "pytype/abstract/_function_base.py: SignedFunction._map_args, argcount, get_nondefault_params",
           "pytype/abstract/_pytd_function.py: PyTDSignature._map_args, _fill_in_missing_parameters",
-          "pytype/abstract/function.py: Args, Signature, has_visible_namedarg (incl. cfg HasCombination), argname",
+          "pytype/abstract/function.py: Args, Args.simplify, starargs_as_tuple, starstarargs_as_dict, Signature, has_visible_namedarg (incl. cfg HasCombination), argname",
           "pytype/errors/error_types.py: DuplicateKeyword, WrongKeywordArgs, MissingParameter, WrongArgCount (raised; constructors untraced)"],
       "bounds": {j.name: j.params for j in jobs(tier)},
-      "outside": ["`*`/`**` at the call site (Args.simplify)", "bound methods / classmethods / constructors (the VM prepends self)",
+      "outside": ["`*`/`**` at the call site with non-concrete iterables/mappings or mixed with explicit arguments", "bound methods / classmethods / constructors (the VM prepends self)",
                   "overload selection", "the error line", "more than MAXP parameters of a kind"],
       "rule": "one record per completed path keyed by (signature, call shape); non-trivial = the call passes at least one argument",
       "assumptions": [
